@@ -27,7 +27,7 @@ class Ctx:
     def inventory(self):
         return Inventory(self.F, self.cg)
 
-    def opcode_where(self, fn_path, min_arms=100):
+    def opcode_where(self, fn_path, min_arms=60):
         """{opcode value: 'file:line (function)'} of the arms of the opcode match in fn_path, for reports"""
         from dispatch import opcode_matches
         out = {}
@@ -111,3 +111,14 @@ def sites_to_obligations(rep, rule, sites, rows, ubcheck_rows=True):
                    expected="unreachable, or guarded, or covered by an assume-guarantee row",
                    found="%d site(s) that can fire" % len(ss))
     return stats
+
+
+def is_inner_vm(recv):
+    """is the receiver of a delegated call the VM this VM wraps: a field of `self` (whatever it is called) whose type
+    is one of the crate's VM kinds"""
+    t = recv
+    if isinstance(t, tuple) and t and t[0] == "ref":
+        t = t[1]
+    return (isinstance(t, tuple) and len(t) == 4 and t[0] == "pf" and isinstance(t[1], tuple) and t[1][:1] == ("pv",)
+            and isinstance(t[1][1], tuple) and t[1][1][:1] == ("self",) and bool(re.match(r"^EbpfVm\w+(<.*>)?$", str(t[3]))))
+
